@@ -15,7 +15,7 @@ def flags_rich(g: int, h: int, bx: int, x: int, y: int, sh: int, z: int, k: int,
     label("uncached=%s" % [n for n in FLAG_CELLS if not flags[n]])
     vals = dict(g=g, h=h, bx=bx, x=x, y=y, sh=sh, z=z, k=k)
     live = Rich(vals, "L", flags=flags)
-    fresh = Rich(vals, "F", flags={n: True for n in FLAG_CELLS + ["u", "ua"]})
+    fresh = Rich(vals, "F", flags={n: True for n in FLAG_CELLS + ["u", "ua", "uu"]})
     if pre:
         label("eval all")
         live.observe()
@@ -37,7 +37,7 @@ def flags_rich(g: int, h: int, bx: int, x: int, y: int, sh: int, z: int, k: int,
 
 @harness
 def flags_dag(v0: int, v1: int, v2: int, z: int, g: int, z2: int, g2: int, p1_1: int, p2_1: int, p1_2: int, p2_2: int, T2: bool,
-              mask: int, q1: int, t1: int, kf: int, q2: int, t2: int, zr: int) -> bool:
+              mask: int, q1: int, t1: int, kf: int, q2: int, t2: int, zr: int, inw: int) -> bool:
     mask, q1, t1, kf, q2, t2, zr = pick(mask, 0, 7), pick(q1, 0, 2), pick(t1, 0, 1), pick(kf, -1, 2), pick(q2, 0, 2), pick(t2, 0, 1), pick(zr, 0, 2)
     cached = [not (mask >> k) & 1 for k in range(N)]
     label("uncached=%s" % [k for k in range(N) if not cached[k]])
@@ -72,6 +72,13 @@ def flags_dag(v0: int, v1: int, v2: int, z: int, g: int, z2: int, g2: int, p1_1:
                 sane = all(x[0] != kf for x in done)
             if not check(sane, "flipping the flag discards the cells' own values"):
                 return False
+            if d.cached[kf]:
+                # now cached: a value assigned to it must reach every value computed through it while it was uncached
+                label("input c%d[%d] = w after the flip" % (kf, t1))
+                d.cells[kf][t1] = inw
+                d.inputs[(kf, t1)] = inw
+                with notrace():
+                    done = [x for x in d.held()]
     # ---- a reference every cells reads through an attribute path (Sub.z) and one read by name (g) change:
     #      invalidation must reach every held value computed through any chain of uncached cells
     for which in (0, 1):
@@ -106,7 +113,7 @@ def _runs(d, q, t, done):
     return out
 
 
-ORDER9 = [0, 1, 2, 3, 7, 9, 12, 13, 14, 24, 29, 23, 5, 27, 28]
+ORDER9 = [0, 1, 2, 3, 7, 9, 12, 13, 14, 24, 29, 23, 5, 27, 28, 36]
 _V = dict(g=10, h=20, bx=3, x=1, y=2, sh=30, z=4, k=5)
 _NAT = dict(v0=1, v1=2, v2=3, z=4, g=5, z2=40, g2=50, p1_1=0, p2_1=-1, p1_2=1, p2_2=0, T2=True)
 QUICK = _os.environ.get("VERIF_TIER", "quick") == "quick"
@@ -127,14 +134,14 @@ def _parts_dag(tier, seed):
 
 QUERIES = [
     Query("flags_rich", flags_rich, pre=["0 <= mask < 32", "0 <= i1 < %d" % len(ORDER9)], partitions=_parts_rich,
-          natives=[dict(_V, mask=m, i1=i, v1=77, pre=True) for (m, i) in ((0, 0), (31, 1), (12, 1), (3, 4), (16, 6), (31, 11), (5, 13), (8, 3))],
+          natives=[dict(_V, mask=m, i1=i, v1=77, pre=True) for (m, i) in ((0, 0), (31, 1), (12, 1), (3, 4), (16, 6), (31, 11), (5, 13), (8, 3), (0, 15), (4, 15))],
           bounds=lambda tier: {"flag_cells": FLAG_CELLS, "assignments": "all 32", "edits": [EDITS[e][0] for e in ORDER9],
                                "history": "[eval all]? ; edit(v) ; observe all; compared with a fresh all-cached model that only saw the edit"},
           outside=["flags on cells outside the five", "histories of more than one edit (C02 covers pairs with the default flags)"]),
     Query("flags_dag", flags_dag,
           pre=dag_pre(N) + ["0 <= mask < 8", "0 <= q1 < 3", "0 <= t1 <= 1", "-1 <= kf < 3", "0 <= q2 < 3", "0 <= t2 <= 1", "0 <= zr <= 2"],
           partitions=_parts_dag,
-          natives=[dict(_NAT, mask=m, q1=2, t1=1, kf=kf, q2=q2, t2=1, zr=zr) for (m, kf, q2, zr) in ((0, -1, 1, 0), (2, 1, 2, 1), (7, 0, 2, 2), (5, 2, 0, 0), (1, 1, 1, 1), (3, -1, 2, 1), (6, -1, 2, 2))] + [dict(_NAT, p2_2=-1, mask=3, q1=2, t1=1, kf=-1, q2=2, t2=1, zr=1)],
+          natives=[dict(_NAT, inw=500, mask=m, q1=2, t1=1, kf=kf, q2=q2, t2=1, zr=zr) for (m, kf, q2, zr) in ((0, -1, 1, 0), (2, 1, 2, 1), (7, 0, 2, 2), (5, 2, 0, 0), (1, 1, 1, 1), (3, -1, 2, 1), (6, -1, 2, 2))] + [dict(_NAT, inw=500, p2_2=-1, mask=3, q1=2, t1=1, kf=-1, q2=2, t2=1, zr=1), dict(_NAT, inw=500, p2_2=-1, mask=2, q1=2, t1=1, kf=1, q2=2, t2=1, zr=0)],
           bounds=lambda tier: {"cells": N, "masks": "all 8", "requests": 2, "flag_flip_between": "none or one cells", "then": "Sub.z (attribute path) and g (by name) re-assigned, both requests repeated", "dag": "pointers symbolic"},
           outside=["N > 3"]),
 ]
